@@ -1,0 +1,83 @@
+//go:build verif
+
+package symboltable
+
+import (
+	"fmt"
+	"strings"
+)
+
+// VerifHashDump exposes the internal state of the four hash tables for differential checks:
+// the kind ("chain", "linear", "quadratic", "double"), the number of slots m, the live count n,
+// the tombstone counter t (-1 for tables without soft deletion) and the layout in slot order.
+//
+// Layout: one token per slot separated by blanks; runs of empty slots are written "_<count>";
+// an open-addressing slot is "key:val" (suffix "x" when soft-deleted); a chaining bucket is
+// "key:val,key:val,..." in chain order.
+func VerifHashDump[K, V any](st SymbolTable[K, V]) (kind string, m, n, t int, layout string) {
+	var b strings.Builder
+	empty := 0
+	flush := func() {
+		if empty > 0 {
+			fmt.Fprintf(&b, "_%d ", empty)
+			empty = 0
+		}
+	}
+
+	soft := func(entries []*hashTableEntry[K, V]) {
+		for _, e := range entries {
+			if e == nil {
+				empty++
+				continue
+			}
+			flush()
+			if e.deleted {
+				fmt.Fprintf(&b, "%v:%vx ", e.key, e.val)
+			} else {
+				fmt.Fprintf(&b, "%v:%v ", e.key, e.val)
+			}
+		}
+		flush()
+	}
+
+	switch ht := st.(type) {
+	case *chainHashTable[K, V]:
+		kind, m, n, t = "chain", ht.m, ht.n, -1
+		for _, x := range ht.buckets {
+			if x == nil {
+				empty++
+				continue
+			}
+			flush()
+			for ; x != nil; x = x.next {
+				fmt.Fprintf(&b, "%v:%v", x.key, x.val)
+				if x.next != nil {
+					b.WriteByte(',')
+				}
+			}
+			b.WriteByte(' ')
+		}
+		flush()
+	case *linearHashTable[K, V]:
+		kind, m, n, t = "linear", ht.m, ht.n, -1
+		for _, e := range ht.entries {
+			if e == nil {
+				empty++
+				continue
+			}
+			flush()
+			fmt.Fprintf(&b, "%v:%v ", e.Key, e.Val)
+		}
+		flush()
+	case *quadraticHashTable[K, V]:
+		kind, m, n, t = "quadratic", ht.m, ht.n, ht.t
+		soft(ht.entries)
+	case *doubleHashTable[K, V]:
+		kind, m, n, t = "double", ht.m, ht.n, ht.t
+		soft(ht.entries)
+	default:
+		kind = "other"
+	}
+
+	return kind, m, n, t, strings.TrimSpace(b.String())
+}
